@@ -5,7 +5,7 @@ from .. import AnalysisError
 from ..report import Ob
 from ..cfg import calls_at, call_attr, is_self_attr, own_exprs, walk_now
 from ..state import Analysis, State, TOP
-from ..norm import Normalizer, cmp_norm, FrameEnv, Lin, single_defs
+from ..norm import Normalizer, cmp_norm, cmp_polarity, FrameEnv, Lin, single_defs, subst
 from .. import inventory as inv
 from .. import devices as dv
 
@@ -150,72 +150,95 @@ def check(ctx):
             else:
                 o.witness((op, 'update'))
                 o.sample({'operation': op, 'store': ast.unparse(s), 'normal_form': f'({u.key()}, {cap.key()})', 'line': s.lineno})
-    # holdings
+    # holdings: decided on the supergraphs of release / merge (helpers inlined, local aliases of the holdings dict rebased, locals substituted)
     NR = Normalizer(P, RR)
+
+    def holding_stores(g):
+        """(node, key expr, new-value Lin, frame env) for every `self._reserved_resources[k] = v` / `[k] op= v` in the graph"""
+        out = []
+        for n in g.nodes.values():
+            if n.kind != 'stmt' or not isinstance(n.ast, (ast.Assign, ast.AugAssign)):
+                continue
+            t = n.ast.targets[0] if isinstance(n.ast, ast.Assign) else n.ast.target
+            env = FrameEnv(n.frame)
+            if not (isinstance(t, ast.Subscript) and is_self_attr(subst(t.value, env), '_reserved_resources')):
+                continue
+            if isinstance(n.ast, ast.AugAssign):
+                val = ast.BinOp(left=ast.Subscript(value=t.value, slice=t.slice, ctx=ast.Load()), op=n.ast.op, right=n.ast.value)
+            else:
+                val = n.ast.value
+            out.append((n, ast.unparse(subst(t.slice, env)), NR.norm(subst(val, env), env), env))
+        return out
+
+    def entry_loops(g, mapping_text):
+        """for-nodes `for k, a in <mapping>.items()` (mapping spelled through frames) -> [(node, k, a)]"""
+        out = []
+        for n in g.nodes.values():
+            if n.kind == 'for' and isinstance(n.ast.target, ast.Tuple) and len(n.ast.target.elts) == 2 and all(isinstance(e, ast.Name) for e in n.ast.target.elts):
+                if ast.unparse(subst(n.ast.iter, FrameEnv(n.frame))) == f'{mapping_text}.items()':
+                    out.append((n, n.ast.target.elts[0].id, n.ast.target.elts[1].id))
+        return out
+
     fn = P.method(RR, 'release')[1]
-    subs = [s for s in ast.walk(fn) if isinstance(s, (ast.AugAssign, ast.Assign)) and isinstance(s.targets[0] if isinstance(s, ast.Assign) else s.target, ast.Subscript)
-            and is_self_attr((s.targets[0] if isinstance(s, ast.Assign) else s.target).value, '_reserved_resources')]
+    pn = fn.args.args[1].arg
+    g = ctx.graph(RR, 'release')
+    stores = holding_stores(g)
+    loops = entry_loops(g, pn)
     o.count()
-    okr = len(subs) == 1 and isinstance(subs[0], ast.AugAssign) and isinstance(subs[0].op, ast.Sub) and ast.unparse(subs[0].value) == 'amount'
-    if len(subs) == 1 and isinstance(subs[0], ast.Assign):
-        k = ast.unparse(subs[0].targets[0].slice)
-        okr = NR.norm(subs[0].value).is_({f'self._reserved_resources[{k}]': 1, 'amount': -1})
-    if not okr:
-        o.fail(P, 'ReservedResources.release', subs[0] if subs else 'self._reserved_resources[resource_name] -= amount',
+    okr = bool(stores) and bool(loops)
+    for n, key, lin, env in stores:
+        mine = [(k, a) for ln, k, a in loops if ln.frame is n.frame]
+        if not any(key == k and lin.is_({f'self._reserved_resources[{k}]': 1, a: -1}) for k, a in mine):
+            okr = False
+            o.fail(P, 'ReservedResources.release', n.ast, 'a release must reduce the holdings of each resource by exactly the released amount '
+                   f'(found `{key}` := {lin.key()})', node=n)
+    if not stores or not loops:
+        o.fail(P, 'ReservedResources.release', 'self._reserved_resources[resource_name] -= amount',
                'a release must reduce the holdings of each resource by exactly the released amount', file=RR.mod.path, line=fn.lineno)
-    else:
+    elif okr:
         o.witness('holdings-release')
     # release passes to the manager exactly what it validated / reduces
     o.count()
-    rel = [x for x in ast.walk(fn) if isinstance(x, ast.Call) and call_attr(x) == '_release_resources']
-    pn = fn.args.args[1].arg
-    if len(rel) != 1 or [ast.unparse(a) for a in rel[0].args] != [pn] or ast.unparse(rel[0].func.value) != 'self._resource_manager':
+    rel = [(n, c) for n in g.nodes.values() for c in calls_at(g, n) if call_attr(c) == '_release_resources']
+    if len(rel) != 1 or [ast.unparse(subst(a_, FrameEnv(rel[0][0].frame))) for a_ in rel[0][1].args] != [pn] \
+            or ast.unparse(subst(rel[0][1].func.value, FrameEnv(rel[0][0].frame))) != 'self._resource_manager':
         o.fail(P, 'ReservedResources.release', 'self._resource_manager._release_resources(resources)', 'the pools must be given back exactly the amounts being released',
                file=RR.mod.path, line=fn.lineno)
     else:
         o.witness('give-back')
-    # deletion of emptied entries only
-    o.count()
-    dels = [x for x in ast.walk(fn) if isinstance(x, ast.Delete)]
-    for d in dels:
-        pass
     fn = P.method(RR, 'merge')[1]
     o.count()
     other = fn.args.args[1].arg
-    empt = [s for s in ast.walk(fn) if isinstance(s, ast.Assign) and ast.unparse(s.targets[0]) == f'{other}._reserved_resources' and isinstance(s.value, ast.Dict) and not s.value.keys]
-    loops = [l for l in ast.walk(fn) if isinstance(l, ast.For) and ast.unparse(l.iter) == f'{other}._reserved_resources.items()'
-             and isinstance(l.target, ast.Tuple) and len(l.target.elts) == 2 and all(isinstance(e, ast.Name) for e in l.target.elts)]
+    g = ctx.graph(RR, 'merge')
+    empt = [n for n in g.nodes.values() if n.kind == 'stmt' and isinstance(n.ast, ast.Assign)
+            and ast.unparse(subst(n.ast.targets[0], FrameEnv(n.frame))) == f'{other}._reserved_resources' and isinstance(n.ast.value, ast.Dict) and not n.ast.value.keys]
+    loops = entry_loops(g, f'{other}._reserved_resources')
     kinds = []
     if len(loops) == 1:
-        kv, av = [e.id for e in loops[0].target.elts]
-        for s_ in ast.walk(loops[0]):
-            if isinstance(s_, (ast.Assign, ast.AugAssign)):
-                t = s_.targets[0] if isinstance(s_, ast.Assign) else s_.target
-                if isinstance(t, ast.Subscript) and is_self_attr(t.value, '_reserved_resources'):
-                    if ast.unparse(t.slice) != kv:
-                        kinds.append('wrong-key')
-                        continue
-                    newv = NR.norm(ast.BinOp(left=ast.Subscript(value=t.value, slice=t.slice, ctx=ast.Load()), op=s_.op, right=s_.value) if isinstance(s_, ast.AugAssign) else s_.value, {})
-                    old_ = f'self._reserved_resources[{kv}]'
-                    if newv.is_({old_: 1, av: 1}):
-                        kinds.append('add')
-                    elif newv.is_({av: 1}):
-                        kinds.append('new')
-                    elif newv.is_({f'self._reserved_resources.get({kv}, 0)': 1, av: 1}):
-                        kinds += ['add', 'new']
-                    else:
-                        kinds.append('other:' + newv.key())
-    okm = len(loops) == 1 and len(empt) == 1 and set(kinds) == {'add', 'new'} and not _loop_escapes(loops[0])
+        ln, kv, av = loops[0]
+        for n, key, newv, env in holding_stores(g):
+            if key != kv:
+                kinds.append('wrong-key')
+                continue
+            old_ = f'self._reserved_resources[{kv}]'
+            if newv.is_({old_: 1, av: 1}):
+                kinds.append('add')
+            elif newv.is_({av: 1}):
+                kinds.append('new')
+            elif newv.is_({f'self._reserved_resources.get({kv}, 0)': 1, av: 1}):
+                kinds += ['add', 'new']
+            else:
+                kinds.append('other:' + newv.key())
+    okm = len(loops) == 1 and len(empt) == 1 and set(kinds) == {'add', 'new'} and not _loop_escapes(loops[0][0].ast)
     if not okm:
         o.fail(P, 'ReservedResources.merge', 'self._reserved_resources[name] += amount ... other._reserved_resources = {}',
-               'merge must add every holding of the other reservation to this one and leave the other one empty', file=RR.mod.path, line=fn.lineno)
+               'merge must add every holding of the other reservation to this one and leave the other one empty'
+               + (f' (stores found: {kinds})' if kinds else ''), file=RR.mod.path, line=fn.lineno)
     else:
         o.witness('merge')
         # the emptying happens after the loop, on every path
-        g = ctx.graph(RR, 'merge')
-        en = [n for n in g.nodes.values() if n.kind == 'stmt' and n.ast is empt[0]]
-        if not en or g.exit in g.reach([g.entry], avoid={en[0].id}, follow=lambda l: l != 'exc'):
-            o.fail(P, 'ReservedResources.merge', empt[0], 'the merged reservation is not emptied on every path (its amounts would be released twice)', file=RR.mod.path, line=empt[0].lineno)
+        if g.exit in g.reach([g.entry], avoid={empt[0].id}, follow=lambda l: l != 'exc'):
+            o.fail(P, 'ReservedResources.merge', empt[0].ast, 'the merged reservation is not emptied on every path (its amounts would be released twice)', node=empt[0])
     rp = P.lookup_prop(RR, 'reserved_resources', 'get')
     o.count()
     if not rp or 'self._reserved_resources' not in ast.unparse(rp[1].body[-1]):
@@ -330,6 +353,11 @@ def implies(N, have, want):
 
 
 def fallible_after_mutation(ctx, c, op, field, o):
+    """decided on the supergraph of the operation (helpers inlined): every access self.<field>[k] that can happen after the first
+    mutation is protected by a KeyError handler, or keyed by an iteration over that same dict, or was validated before the mutation --
+    the same entry (key, amount) of the same mapping accessed inside try/except KeyError under guards implied by the guards here.
+    Entries are named canonically (K_, V_ for the variables of `for k, v in <mapping>.items()`), mappings are spelled through the chain
+    of frames, so validation and use may live in different helpers."""
     P = ctx.P
     fn = P.method(c, op)[1]
     N = Normalizer(P, c)
@@ -337,83 +365,112 @@ def fallible_after_mutation(ctx, c, op, field, o):
     muts = [n for n in g.nodes.values() if is_mutation(g, n)]
     if not muts:
         raise AnalysisError(f'{c.name}.{op}: no mutation found')
-    first_line = min(n.line for n in muts)
-    # accesses self.<field>[K]
-    accesses = [x for x in ast.walk(fn) if isinstance(x, ast.Subscript) and is_self_attr(x.value, field)]
-    parents = {}
-    for n in ast.walk(fn):
-        for ch in ast.iter_child_nodes(n):
-            parents[ch] = n
+    after_mut = g.reach([m for n in muts for l, m in g.succ[n.id] if l != 'exc'], follow=lambda l: l != 'exc')
+    pcache = {}
 
-    def in_try_keyerror(x):
-        cur = x
-        while cur in parents:
-            p = parents[cur]
-            if isinstance(p, ast.Try) and cur in p.body and any(h.type is None or 'KeyError' in ast.unparse(h.type) or 'LookupError' in ast.unparse(h.type)
-                                                                 or ast.unparse(h.type) == 'Exception' for h in p.handlers):
-                return True
-            cur = p
-        return False
+    def parents_of(func):
+        if func not in pcache:
+            d = {}
+            for n_ in ast.walk(func):
+                for ch in ast.iter_child_nodes(n_):
+                    d[ch] = n_
+            pcache[func] = d
+        return pcache[func]
 
-    def loop_source(x):
+    def loop_of(frame, x):
+        """innermost enclosing `for` of x in its function: (canonical mapping text, {loop var: canonical name})"""
+        par = parents_of(frame.func)
         cur = x
-        while cur in parents:
-            p = parents[cur]
-            if isinstance(p, ast.For):
-                return ast.unparse(p.iter), [e.id for e in ast.walk(p.target) if isinstance(e, ast.Name)]
-            cur = p
-        return None, []
-    def relevant(gs, names):
-        """keep the guard literals that speak about the loop variables (key / amount); literals about which
-        argument form was used do not restrict the keys"""
-        return [(l, op_) for l, op_ in gs if any(nm in k.replace('.', ' ').replace('[', ' ').replace(']', ' ').split() for k in l.terms for nm in names)]
-    validated = []
-    for x in accesses:
-        if x.lineno < first_line and in_try_keyerror(x):
-            src, names = loop_source(x)
-            gs = [g_ for g_ in (lit(N, t, tr) for t, tr in enclosing_guards(fn, x)) if g_]
-            validated.append((ast.unparse(x.slice), src, relevant(gs, names)))
+        while cur in par:
+            p_ = par[cur]
+            if isinstance(p_, ast.For) and (cur in p_.body or cur in p_.orelse):
+                names = [e.id for e in ast.walk(p_.target) if isinstance(e, ast.Name)]
+                ren = dict(zip(names, ['K_', 'V_', 'W_']))
+                if isinstance(p_.iter, ast.Name) and p_.iter.id not in frame.argmap:
+                    return p_.iter.id, ren          # a local collection (filled by appends, checked where it is filled)
+                return ast.unparse(subst(p_.iter, FrameEnv(frame))), ren
+            cur = p_
+        return None, {}
+
+    class Ren(ast.NodeTransformer):
+        def __init__(self, m):
+            self.m = m
+
+        def visit_Name(self, n_):
+            return ast.copy_location(ast.Name(self.m[n_.id], n_.ctx), n_) if n_.id in self.m else n_
+
+    import copy as _copy
+
+    def literals(frame, x, ren):
+        """guard literals (Lin, op) under which x is evaluated, through the chain of frames, about the canonical entry"""
+        out = []
+        fr, node = frame, x
+        first = True
+        while fr is not None and node is not None:
+            for t, tr in enclosing_guards(fr.func, node):
+                t2 = Ren(ren).visit(_copy.deepcopy(t)) if first else t
+                r = cmp_norm(N, t2, FrameEnv(fr), tr)
+                if r:
+                    out.append(r)
+            node, fr, first = fr.call, fr.parent, False
+        return [(l, op_) for l, op_ in out if any(nm in k.replace('.', ' ').replace('[', ' ').replace(']', ' ').split() for k in l.terms for nm in ('K_', 'V_', 'W_'))]
+
+    accesses = []      # (node, subscript ast, canonical key, mapping text, guard literals, protected)
+    for n in g.nodes.values():
+        if n.ast is None:
+            continue
+        env = FrameEnv(n.frame)
+        roots = own_exprs(n) if n.kind != 'stmt' else [n.ast]
+        for r_ in roots:
+            for x in ast.walk(r_):
+                if isinstance(x, ast.Subscript) and is_self_attr(subst(x.value, env), field):
+                    src, ren = loop_of(n.frame, x)
+                    key = ast.unparse(Ren(ren).visit(_copy.deepcopy(subst(x.slice, env, keep=tuple(ren)))))
+                    prot = any(l == 'exc' for l, _ in g.succ[n.id])
+                    accesses.append((n, x, key, src, literals(n.frame, x, ren), prot, ren))
+    validated = [(key, src, gs) for n, x, key, src, gs, prot, ren in accesses if prot and n.id not in after_mut]
     o.count()
     if not validated:
         o.fail(P, f'{c.name}.{op}', f'try: self.{field}[name] ... except KeyError', 'the operation does not validate its keys before changing state', file=c.mod.path, line=fn.lineno)
         return
 
-    def accepted(node, key, src, names):
-        gs = relevant([g_ for g_ in (lit(N, t, tr) for t, tr in enclosing_guards(fn, node)) if g_], names)
-        for vkey, vsrc, vgs in validated:
-            if vkey == key and vsrc == src and all(implies(N, gs, w) for w in vgs):
-                return True, gs
-        return False, gs
-    for x in accesses:
-        if x.lineno <= first_line:
+    def accepted(key, src, gs):
+        return any(vkey == key and vsrc == src and all(implies(N, gs, w) for w in vgs) for vkey, vsrc, vgs in validated)
+
+    def show(gs):
+        return [f'{l.key()} {op_} 0' for l, op_ in gs]
+    seen = set()
+    for n, x, key, src, gs, prot, ren in accesses:
+        if n.id not in after_mut or (n.id, id(x)) in seen:
             continue
+        seen.add((n.id, id(x)))
         o.count()
-        key = ast.unparse(x.slice)
-        src, names = loop_source(x)
-        if in_try_keyerror(x):
-            o.witness((x.lineno, 'protected'))
+        if prot:
+            o.witness((n.line, 'protected'))
             continue
-        # keyed by an iteration over the same dict
-        if src and src.replace('.items()', '').replace('.keys()', '') == f'self.{field}' and key in names:
-            o.witness((x.lineno, 'own-keys'))
+        if src and src.replace('.items()', '').replace('.keys()', '') == f'self.{field}' and key in ('K_',):
+            o.witness((n.line, 'own-keys'))
             continue
-        ok_, gs = accepted(x, key, src, names)
+        ok_ = accepted(key, src, gs)
         if not ok_ and src and src.isidentifier():
             # keyed by a local list: every append to it must happen where the key is already known to be held
-            apps = [a for a in ast.walk(fn) if isinstance(a, ast.Call) and call_attr(a) == 'append' and ast.unparse(a.func.value) == src and len(a.args) == 1]
-            if apps and all(accepted(a, ast.unparse(a.args[0]), *loop_source(a))[0] for a in apps):
+            apps = []
+            for m in g.nodes.values():
+                if m.frame is n.frame:
+                    for cl in calls_at(g, m):
+                        if call_attr(cl) == 'append' and ast.unparse(cl.func.value) == src and len(cl.args) == 1:
+                            s2, ren2 = loop_of(m.frame, cl)
+                            k2 = ast.unparse(Ren(ren2).visit(_copy.deepcopy(subst(cl.args[0], FrameEnv(m.frame), keep=tuple(ren2)))))
+                            apps.append(accepted(k2, s2, literals(m.frame, cl, ren2)))
+            if apps and all(apps):
                 ok_ = True
         if ok_:
-            o.witness((x.lineno, 'guard-implies-validation'))
-            o.sample({'access': ast.unparse(parents.get(x, x))[:70], 'line': x.lineno, 'guards': [f'{l.key()} {op_} 0' for l, op_ in gs],
-                      'validated_under': [[f'{l.key()} {op_} 0' for l, op_ in v[2]] for v in validated if v[0] == key]})
+            o.witness((n.line, 'guard-implies-validation'))
+            o.sample({'access': n.src()[:70], 'line': n.line, 'guards': show(gs), 'validated_under': [show(v[2]) for v in validated if v[0] == key]})
         else:
-            st = x
-            while st in parents and not isinstance(st, ast.stmt):
-                st = parents[st]
-            o.fail(P, f'{c.name}.{op}', st, f'`self.{field}[{key}]` is read after the pools were already changed, for keys that were not validated '
-                   f'(guards here: {[f"{l.key()} {op_} 0" for l, op_ in gs] or "none"}; validated under: {[[f"{l.key()} {op_} 0" for l, op_ in v[2]] for v in validated if v[0] == key]}): '
-                   'a KeyError here leaves the operation half done', file=c.mod.path, line=x.lineno)
+            o.fail(P, f'{c.name}.{op}', n.ast, f'`self.{field}[{ast.unparse(x.slice)}]` is read after the pools were already changed, for keys that were not validated '
+                   f'(guards here: {show(gs) or "none"}; validated under: {[show(v[2]) for v in validated if v[0] == key]}): '
+                   'a KeyError here leaves the operation half done', node=n)
 
 
 def drop_iteration_literals(an, n, before, after):
@@ -566,7 +623,14 @@ def reserve_shape(ctx, RM, o):
     else:
         o.witness('same-entries')
     o.count()
-    if len(ctor) != 1 or [ast.unparse(a) for a in ctor[0].args] != ['self', tested]:
+    def ctor_args(call):
+        """[manager argument, holdings argument] of ReservedResources(...), positional or by keyword"""
+        RRc = P.cls('ReservedResources')
+        ps = [a.arg for a in RRc.methods['__init__'].args.args][1:] if '__init__' in RRc.methods else []
+        b_ = dict(zip(ps, call.args))
+        b_.update({k.arg: k.value for k in call.keywords if k.arg})
+        return [ast.unparse(b_[p_]) if p_ in b_ else None for p_ in ps]
+    if len(ctor) != 1 or ctor_args(ctor[0]) != ['self', tested]:
         o.fail(P, 'ResourceManager.reserve_resources', 'return ReservedResources(self, filtered_request)', 'the returned reservation must hold exactly the entries that were taken',
                file=RM.mod.path, line=fn.lineno)
     else:
@@ -588,53 +652,136 @@ def reserve_shape(ctx, RM, o):
         o.fail(P, 'ResourceManager.reserve_resources', 'if amount < 0: raise ValueError', 'a negative requested amount is not rejected', file=RM.mod.path, line=fn.lineno)
     else:
         o.witness('negative-rejected')
-    # the feasibility test
+    feasibility_table(ctx, RM, o)
+
+
+def feasibility_table(ctx, RM, o):
+    """the feasibility test, decided per entry of the request: one iteration of its scan is explored (L9) for every combination of
+    the ghosts  amount is zero / resource is known / amount fits (not capacity - usage - amount < 0): a non-zero entry that is unknown
+    or does not fit makes the test answer False at once, any other entry goes on to the next one; True is answered only after the
+    last entry.  Independent of the spelling: try/except KeyError or a membership test, `all(...)` over a per-entry helper, a local
+    for the free amount, either polarity of the comparisons."""
+    import itertools
+    P = ctx.P
+    N = Normalizer(P, RM)
     fg = ctx.graph(RM, '_can_fulfill_request', boolean=True)
     f2 = P.method(RM, '_can_fulfill_request')[1]
-    conds = [n for n in fg.nodes.values() if n.kind == 'cond']
+    req = f2.args.args[1].arg
+    heads = [n for n in fg.nodes.values() if n.kind == 'for']
     o.count()
-    refusal = False
-    for n in conds:
+    if len(heads) != 1:
+        o.fail(P, 'ResourceManager._can_fulfill_request', 'for resource_name, requested_amount in request.items()',
+               f'expected one scan over the entries of the request, found {len(heads)}', file=RM.mod.path, line=f2.lineno)
+        return
+    head = heads[0]
+    it = subst(head.ast.iter, FrameEnv(head.frame))
+    tg = head.ast.target
+    if not (isinstance(tg, ast.Tuple) and len(tg.elts) == 2 and all(isinstance(e, ast.Name) for e in tg.elts)) or ast.unparse(it) != f'{req}.items()':
+        o.fail(P, 'ResourceManager._can_fulfill_request', head.ast.iter, 'the feasibility test must examine every (name, amount) entry of the request',
+               file=RM.mod.path, line=head.line)
+        return
+    name_v, amt_v = tg.elts[0].id, tg.elts[1].id
+
+    def keep_env(frame):
+        return FrameEnv(frame)
+
+    def classify(test, frame):
+        """('zero'|'known'|'fits', polarity) for a condition about the current entry"""
+        env = keep_env(frame)
+        pol = cmp_polarity(N, test, env, {amt_v: 1}, '==')
+        if pol:
+            return 'zero', pol == 1
+        if isinstance(test, ast.Compare) and len(test.ops) == 1 and isinstance(test.ops[0], (ast.In, ast.NotIn)):
+            l = subst(test.left, env)
+            r = subst(test.comparators[0], env)
+            if isinstance(r, ast.Call) and isinstance(r.func, ast.Attribute) and r.func.attr == 'keys':
+                r = r.func.value
+            if ast.unparse(l) == name_v and is_self_attr(r, '_resources'):
+                return 'known', isinstance(test.ops[0], ast.In)
         for truth in (True, False):
-            r = cmp_norm(N, n.ast, FrameEnv(n.frame), truth)
-            if r and r[1] == '<':
+            r = cmp_norm(N, test, env, truth)
+            if r and r[1] in ('<', '<='):
                 L = r[0]
                 keys = list(L.terms)
                 caps = [k for k in keys if k.endswith('][1]')]
                 uses = [k for k in keys if k.endswith('][0]')]
                 others = [k for k in keys if k not in caps + uses]
-                if len(caps) == 1 and len(uses) == 1 and len(others) == 1 and L.terms[caps[0]] == 1 and L.terms[uses[0]] == -1 and L.terms[others[0]] == -1 and L.const == 0:
-                    lbl = 'T' if truth else 'F'
-                    rr = fg.reach([m for l, m in fg.succ[n.id] if l == lbl], follow=lambda l: l != 'exc')
-                    # on the "does not fit" edge the only way on is the false exit
-                    if fg.exitT not in fg.reach([m for l, m in fg.succ[n.id] if l == lbl], avoid={x.id for x in conds if x.id != n.id and False}) or True:
-                        direct = [m for l, m in fg.succ[n.id] if l == lbl]
-                        if all(fg.nodes[m].kind == 'return' and isinstance(fg.nodes[m].ast.value, ast.Constant) and fg.nodes[m].ast.value.value is False for m in direct):
-                            # and every path to the true exit passes the "fits" edge for the entries examined: the loop continues on the other edge
-                            refusal = True
-                            o.sample({'feasibility_guard': n.src(), 'normal_form': f'{L.key()} < 0 => refuse', 'line': n.line})
-    if not refusal:
-        o.fail(P, 'ResourceManager._can_fulfill_request', 'if max_available - in_use < requested_amount: return False',
-               'the feasibility test must refuse exactly when capacity - usage - requested < 0', file=RM.mod.path, line=f2.lineno,
-               detail={'conditions': [n.src() for n in conds]})
-    else:
-        o.witness('fit-test')
-    # unknown resource refuses; loop covers every entry; default answer True only after the loop
+                if len(caps) == 1 and len(uses) == 1 and others == [amt_v] and L.const == 0:
+                    if r[1] == '<' and L.terms[caps[0]] == 1 and L.terms[uses[0]] == -1 and L.terms[amt_v] == -1:
+                        return 'fits', not truth          # cap - use - amount < 0  <=> does not fit
+                    if r[1] == '<=' and L.terms[caps[0]] == -1 and L.terms[uses[0]] == 1 and L.terms[amt_v] == 1:
+                        return 'fits', truth              # amount - (cap - use) <= 0  <=> fits
+        return None
+
+    seen_facts = set()
+
+    def refine(an, test, truth, st, frame):
+        c = classify(test, frame)
+        if c is None:
+            return NotImplemented
+        fact, pol = c
+        seen_facts.add(fact)
+        want = 'T' if truth == pol else 'F'
+        cur = st.fields.get('#' + fact, '?')
+        if cur in ('T', 'F'):
+            return st if cur == want else None
+        return st.with_field('#' + fact, want)
+
+    def touches_pool(n):
+        return any(isinstance(x, ast.Subscript) and is_self_attr(x.value, '_resources') and isinstance(x.ctx, ast.Load) for x in ast.walk(n.ast)) if n.ast is not None and n.kind in ('stmt', 'cond', 'return') else False
+
+    def edge(an, n, label, st):
+        if touches_pool(n) and any(l == 'exc' for l, _ in fg.succ[n.id]):
+            seen_facts.add('known')
+            want = 'F' if label == 'exc' else 'T'
+            cur = st.fields.get('#known', '?')
+            if cur in ('T', 'F'):
+                return st if cur == want else None
+            return st.with_field('#known', want)
+        return st
+    an = Analysis(P, fg, ['#zero', '#known', '#fits'])
+    an.refine_hooks.insert(0, refine)
+    an.edge_hooks.append(edge)
+    starts = [m for l, m in fg.succ[head.id] if l == 'T']
+    bad = False
+    for z, k, f in itertools.product('TF', repeat=3):
+        s0 = State({'#zero': z, '#known': k, '#fits': f})
+        for v in (name_v, amt_v):
+            s0.locals[(head.frame.id, v)] = 'S'
+        res = an.run([s0], follow_exc=True, start=starts, stop=[head.id])
+        ctx.units['abstract_states'] += res.n_states()
+        o.count()
+        nxt, yes, no = bool(res.at(head.id)), bool(res.at(fg.exitT)), bool(res.at(fg.exitF))
+        refuse = z == 'F' and (k == 'F' or f == 'F')
+        what = f'an entry with amount {"zero" if z == "T" else "non-zero"}, resource {"known" if k == "T" else "unknown"}, {"fitting" if f == "T" else "not fitting"}'
+        if z == 'T' and k == 'F':
+            what = 'a zero entry for an unknown resource'
+        if refuse and (nxt or yes or not no):
+            bad = True
+            msg = 'a request for an unknown resource is not refused' if k == 'F' else 'the feasibility test must refuse exactly when capacity - usage - requested < 0'
+            o.fail(P, 'ResourceManager._can_fulfill_request', 'if max_available - in_use < requested_amount: return False',
+                   f'{msg}: for {what} the test ' + ('goes on to the next entry' if nxt else 'answers True' if yes else 'has no answer'), file=RM.mod.path, line=f2.lineno)
+        elif not refuse and (yes or no or not nxt):
+            bad = True
+            o.fail(P, 'ResourceManager._can_fulfill_request', 'for resource_name, requested_amount in request.items()',
+                   f'for {what} the test must go on to the next entry; it ' + ('answers False' if no else 'answers True before having examined every entry' if yes else 'has no continuation'),
+                   file=RM.mod.path, line=f2.lineno)
+        else:
+            o.witness(('entry', z, k, f))
+    # exhaustion => True; nothing is answered before the scan
     o.count()
-    an = Analysis(P, fg, [])
-    res = ctx.explore(an, [State({})], follow_exc=True)
-    exc_nodes = [n for n in fg.nodes.values() if n.kind == 'join' and n.note.startswith('except')]
-    unk_ok = bool(exc_nodes) and all(fg.exitT not in fg.reach([n.id], follow=lambda l: l != 'exc') for n in exc_nodes)
-    loops2 = [n for n in fg.nodes.values() if n.kind == 'for']
-    full_scan = len(loops2) == 1 and ast.unparse(loops2[0].ast.iter) == f'{f2.args.args[1].arg}.items()' and \
-        fg.exitT not in fg.reach_edges([fg.entry], cut_edges={(loops2[0].id, 'F')})
-    if not unk_ok:
-        o.fail(P, 'ResourceManager._can_fulfill_request', 'except KeyError: return False', 'a request for an unknown resource is not refused', file=RM.mod.path, line=f2.lineno)
-    if not full_scan:
-        o.fail(P, 'ResourceManager._can_fulfill_request', 'for resource_name, requested_amount in request.items()', 'the feasibility test answers True before having examined every entry',
-               file=RM.mod.path, line=f2.lineno)
-    if unk_ok and full_scan:
+    res = an.run([State({'#zero': '?', '#known': '?', '#fits': '?'})], follow_exc=True, start=[m for l, m in fg.succ[head.id] if l == 'F'], stop=[head.id])
+    if res.at(fg.exitF) or not res.at(fg.exitT):
+        bad = True
+        o.fail(P, 'ResourceManager._can_fulfill_request', 'return True', 'after the last entry the feasibility test must answer True', file=RM.mod.path, line=f2.lineno)
+    res = an.run([State({'#zero': '?', '#known': '?', '#fits': '?'})], follow_exc=True, stop=[head.id])
+    if res.at(fg.exitT) or res.at(fg.exitF):
+        bad = True
+        o.fail(P, 'ResourceManager._can_fulfill_request', f2.name, 'the feasibility test answers before having examined the entries', file=RM.mod.path, line=f2.lineno)
+    o.require({'zero', 'known', 'fits'} <= seen_facts, f'_can_fulfill_request: the per-entry conditions recognised are only {sorted(seen_facts)}')
+    if not bad:
         o.witness('scan')
+        o.sample({'feasibility_test': 'per-entry table over zero/known/fits explored', 'file': P.rel(RM.mod.path), 'line': f2.lineno})
 
 
 def release_validation(ctx, RR, o):
